@@ -186,6 +186,11 @@ def fam_plan(chk, R, tier):
     inputs = []
     # corpus: the design-phase finding F1 first
     inputs.append((((3, 3, 3, 3), (12,)), ((4, 4, 4), (6, 6)), 1, 1, 1, 2, (12, 12)))
+    # F22: zero-size chunks in the finer endpoint + degree pass -> AssertionError in merge_to_number
+    inputs.append((((8,),), ((3, 0, 2, 0, 3),), 1, 1, 16, 2, (8,)))
+    for _ in range(150):
+        n = rng.choice([3, 5, 8, 12])
+        inputs.append(((rand_chunks(rng, n, allow_zero=True),), (rand_chunks(rng, n, allow_zero=True),), 1, rng.choice([1, 4]), rng.choice([1, 64]), rng.choice([2, 3]), (n,)))
     if tier == "thorough":
         for n in range(1, 6):
             comps = list(compositions(n))
@@ -213,7 +218,8 @@ def fam_plan(chk, R, tier):
         if err:
             chk.violation("plan_rechunk raised: " + err,
                           {"fn": "plan_rechunk", "old": old, "new": new, "itemsize": itemsize, "threshold": threshold, "block_size_limit": bsl, "degree_limit": degree},
-                          signature={**sig_base, "class": "raises"})
+                          signature={**sig_base, "class": "raises", "zero_size_chunks": any(0 in c for c in old + new),
+                                     "error": err.split(":")[0]})
         else:
             problems = []
             if not plan or tuple(plan[-1]) != tuple(new):
